@@ -35,6 +35,14 @@ KINDS = {
     "urlencoded": (b"a=1&b=2&a=3", "application/x-www-form-urlencoded"),
     "multipart": (MP_BODY, f"multipart/form-data; boundary={BOUNDARY}"),
 }
+# bodies whose own accessor refuses them (a documented 400): the body itself is read and cached like any other, before and after.
+# Used by the sequential families only.
+BAD_KINDS = {
+    "urlencoded-bad": (b"a=%ff&b=\xff", "application/x-www-form-urlencoded; charset=utf-8"),
+    "urlencoded-badcharset": (b"a=1", "application/x-www-form-urlencoded; charset=nonsense"),
+    "json-bad": (b'{"a":', "application/json"),
+}
+ALL_KINDS = {**KINDS, **BAD_KINDS}
 EXPECT_FORM = {
     "urlencoded": [("a", "1"), ("b", "2"), ("a", "3")],
     "multipart": [("f", "v1"), ("u", ("a.txt", b"file\r\ndata"))],
@@ -84,7 +92,7 @@ class Ref:
 
     def __init__(self, kind, disconnect=False, cache_errors=False):
         self.kind = kind
-        self.B, self.ct = KINDS[kind]
+        self.B, self.ct = ALL_KINDS[kind]
         self.consumed = False
         self.cache = {}
         self.closed = False
@@ -135,6 +143,8 @@ class Ref:
             b = self._body()
             if b[0] != "v":
                 return self._store("json", b)
+            if self.kind == "json-bad":
+                return self._store("json", ("http", 400))
             return self._store("json", ("v", _json.loads(B)))
         if op == "form":
             if "form" in self.cache:
@@ -147,10 +157,12 @@ class Ref:
                     e = self._read_stream()
                     if e:
                         return self._store("form", e)
-            elif self.kind == "urlencoded":
+            elif self.kind in ("urlencoded", "urlencoded-bad", "urlencoded-badcharset"):
                 b = self._body()
                 if b[0] != "v":
                     return self._store("form", b)
+                if self.kind != "urlencoded":
+                    return self._store("form", ("http", 400))
             else:
                 return self._store("form", ("http", 415))
             return self._store("form", ("form", EXPECT_FORM[self.kind]))
@@ -179,7 +191,7 @@ def classify_exc(e):
 
 
 def make_req(kind, chunks):
-    B, ct = KINDS[kind]
+    B, ct = ALL_KINDS[kind]
     headers = [("Content-Type", ct)] if ct else []
     return SV.AReq(method="POST", headers=headers, chunks=chunks)
 
@@ -493,8 +505,8 @@ def run_sequence(iface, kind, chunks, seq, disc_at=None):
 
         areq = make_req(kind, chunks)
         env = SV.to_environ(areq)
-        if len(chunks) % 2 and KINDS[kind][0]:
-            env["CONTENT_LENGTH"] = str(len(KINDS[kind][0]))  # (every other script: the client announces the length of its body)
+        if len(chunks) % 2 and ALL_KINDS[kind][0]:
+            env["CONTENT_LENGTH"] = str(len(ALL_KINDS[kind][0]))  # (every other script: the client announces the length of its body)
         inp = env["wsgi.input"]  # (kept here: the code under test may put another object into the environ)
         req = Request(env)
         ref = Ref(kind)
@@ -518,7 +530,7 @@ def run_sequence(iface, kind, chunks, seq, disc_at=None):
                     problems.append((i, op, "repeated access returned a different object", None))
                     break
                 cached[op] = obj
-        if bytes(inp.delivered) != KINDS[kind][0][:len(inp.delivered)]:
+        if bytes(inp.delivered) != ALL_KINDS[kind][0][:len(inp.delivered)]:
             problems.append((len(seq), "input", "chunks handed out of order", None))
         return problems, ref.key() + (len(inp.delivered),), results
     return run_sequence_asgi(kind, chunks, seq, disc_at)
@@ -654,7 +666,7 @@ def run_concurrent(prefix, kind, msgs, program, has_disc):
     """program: tuple of tuples of accesses (one per task)."""
     from baize.asgi import Request
 
-    B = KINDS[kind][0]
+    B = ALL_KINDS[kind][0]
     areq = make_req(kind, [])
     obs = {"results": {}, "receive_calls": 0, "after_final": 0}
     with Session() as s:
@@ -702,7 +714,7 @@ def run_concurrent(prefix, kind, msgs, program, has_disc):
 
 
 def judge_concurrent(kind, msgs, program, has_disc, obs):
-    B = KINDS[kind][0]
+    B = ALL_KINDS[kind][0]
     probs = []
     if obs["stuck"]:
         probs.append(f"stuck: {obs['stuck']}")
@@ -761,7 +773,7 @@ def conc_programs(tier):
 
 
 def conc_scripts(kind):
-    B = KINDS[kind][0]
+    B = ALL_KINDS[kind][0]
     n = len(B)
     if n == 0:
         chunk_sets = [[b""], [b"", b""]]
@@ -785,7 +797,7 @@ def run_two_requests(prefix, kinds, accessors):
     obs = {"results": [None, None]}
     with Session() as s:
         def make(i):
-            B, ct = KINDS[kinds[i]]
+            B, ct = ALL_KINDS[kinds[i]]
             a = max(1, len(B) // 2)
             if kinds[i] == "multipart":
                 a = B.index(b"v1") + 1  # inside the value of the text field
@@ -830,7 +842,7 @@ def two_requests(r, k, n):
     for ka, kb, aa, ab in combos[k::n]:
         solo = []
         for kind, acc in ((ka, aa), (kb, ab)):
-            probs, key, results = run_sequence_asgi(kind, [KINDS[kind][0]], acc, None)
+            probs, key, results = run_sequence_asgi(kind, [ALL_KINDS[kind][0]], acc, None)
             solo.append(results)
 
         def on_exec(x):
@@ -948,6 +960,7 @@ def shards(tier, seed):
     for iface in ("wsgi", "asgi"):
         for kind in KINDS:
             out.append(("seq", iface, kind))
+    out += [("seq", iface, kind) for iface in ("wsgi", "asgi") for kind in BAD_KINDS]
     for kind in KINDS:
         progs = conc_programs(tier)
         n = 6 if tier == "quick" else 16
@@ -998,7 +1011,7 @@ def run_shard(desc, tier):
         return r
     if desc[0] == "seq":
         _, iface, kind = desc
-        B = KINDS[kind][0]
+        B = ALL_KINDS[kind][0]
         seen_states = set()
         variants = [(c, None) for c in chunkings(B, tier)]
         if iface == "asgi":
@@ -1086,7 +1099,7 @@ def replay(w):
         return bool(r.viol), {"violations": sorted(r.viol)}
     if w["mode"] == "two":
         x = run_two_requests(list(w["schedule"]), tuple(w["kinds"]), tuple(tuple(a) for a in w["accessors"]))
-        solo = [run_sequence_asgi(k, [KINDS[k][0]], tuple(a), None)[2] for k, a in zip(w["kinds"], w["accessors"])]
+        solo = [run_sequence_asgi(k, [ALL_KINDS[k][0]], tuple(a), None)[2] for k, a in zip(w["kinds"], w["accessors"])]
         return x.obs["results"] != solo or bool(x.obs["stuck"]), {"results": x.obs["results"], "alone": solo}
     if w["mode"] in ("positioned", "behind-middleware"):
         rr = R()
